@@ -840,6 +840,19 @@ def dsk3(ctx, c):
                     c.finding("%s.write:position" % cls, "the block is written somewhere else than at the pointer given (%s)" % U(moved[0])[:40],
                               "%s.write changes its pointer (`%s`) before storing the block: the file is a byte stream over its granule chain, so bytes skipped on the way become part of the "
                               "stream while the lengths recorded in the directory and the FAT do not count them - the trailer is no longer where a reader looks for it" % (cls, U(moved[0])[:60]), w)
+                # a slice of the image assigned from something whose length follows the value (the digits of .hex(), a str, a bytes built from them): a list
+                # takes the length of what is assigned, so the image shrinks or grows and every later offset moves
+                for x in ast.walk(f.node):
+                    if isinstance(x, ast.Assign) and isinstance(x.targets[0], ast.Subscript) and isinstance(x.targets[0].slice, ast.Slice) and U(x.targets[0].value) == bufp:
+                        rhs = x.value
+                        fixed = isinstance(rhs, (ast.List, ast.Tuple)) and not any(isinstance(e_, ast.Starred) for e_ in rhs.elts)
+                        by_digits = [y for y in ast.walk(rhs) if isinstance(y, ast.Call) and isinstance(y.func, ast.Attribute) and y.func.attr == "hex" and not y.args and not y.keywords
+                                     and U(y.func.value).startswith("self.")]
+                        if not fixed and by_digits:
+                            c.finding("%s.write:slice-store" % cls, "a slice of the image is assigned `%s`, whose length follows the digits of the value" % U(rhs)[:50],
+                                      "%s.write assigns `%s` to %s[%s]: %s renders as many digits as the value's width hint says (2 for an address written as $80, none for a missing ORG), "
+                                      "and a list slice takes the length of what is assigned - the 161,280-byte image shrinks and the field loses its high byte"
+                                      % (cls, U(rhs)[:70], bufp, U(x.targets[0].slice), U(by_digits[0])), repo.loc(f, x))
                 for o in outs:
                     st = {}
                     for s in o.path.env.get("$stores", ()):
@@ -1844,7 +1857,7 @@ def dsk8_fit(ctx, c):
         try:
             _fold_disk_method(ctx, "add_file", env0, ("<file>",), ov)
         except Raised as e:
-            return ("refused", e.name)
+            return ("refused", e.name, {g: buf[fat + g] for g in range(D.GRANULES)})
         lst = rec.get("fat", (None,))[0]
         return ("stored", list(lst) if isinstance(lst, (list, tuple)) else None, rec)
     bad, und = [], None
@@ -1859,6 +1872,11 @@ def dsk8_fit(ctx, c):
                 bad.append(("fit", "%s: the chain written is %s (free were %s)" % (label, r[1], sorted(free)[:6])))
             elif not fits and r[0] != "refused":
                 bad.append(("refusal", "%s: the file is stored in %s" % (label, r[1])))
+            elif not fits:
+                # a refusal leaves every granule that belonged to a file before still marked as taken
+                freed = sorted(g for g, v in r[2].items() if g not in free and v == 0xFF)
+                if freed:
+                    bad.append(("refusal", "%s: after the refusal granule(s) %s, in use before the call, are marked free" % (label, freed[:6])))
         for kind, pre, post in (("ML", 5, 5), ("BASIC", 3, 0), ("ASCII", 0, 0)):
             G = D.GRANULE_LEN
             for L in sorted({0, 10, G - pre - post - 1, G - pre - post, G - pre - post + 1, G - pre - 3, G - pre, G, 2 * G - pre - post - 1, 2 * G - pre - post}):
